@@ -15,6 +15,7 @@ type CopyOnWriteMap[K, V any] struct {
 var _ fp.MapBase[string, int] = &CopyOnWriteMap[string, int]{}
 
 func (r *CopyOnWriteMap[K, V]) load() fp.UnsafeGoMap[K, V] {
+	verifYield("cow.load")
 	m := r.value.Load()
 
 	if m == nil {
@@ -31,9 +32,11 @@ func (r *CopyOnWriteMap[K, V]) load() fp.UnsafeGoMap[K, V] {
 }
 
 func (r *CopyOnWriteMap[K, V]) copyOnWrite(f func(om fp.UnsafeGoMap[K, V]) fp.UnsafeGoMap[K, V]) fp.UnsafeGoMap[K, V] {
+	verifYield("cow.write")
 
 	r.lock.Lock()
 	defer r.lock.Unlock()
+	verifYield("cow.locked")
 
 	m := r.value.Load()
 	if m == nil {
@@ -41,6 +44,7 @@ func (r *CopyOnWriteMap[K, V]) copyOnWrite(f func(om fp.UnsafeGoMap[K, V]) fp.Un
 	}
 
 	nm := f(m.(fp.UnsafeGoMap[K, V]))
+	verifYield("cow.store")
 	r.value.Store(nm)
 	return nm
 }
